@@ -131,6 +131,9 @@ func bindReplicator(ps *partState) error {
 func runHistory(idx int, dir, tier string, seed, t0 int64) *ledger {
 	r := histRand(idx, seed)
 	p := makePlan(r, idx, tier, t0)
+	if idx >= directedBase {
+		p = directedPlan(idx-directedBase, t0)
+	}
 	L := &ledger{Hist: idx, Seed: seed, Tier: tier, Mode: "step", T0: t0, Shards: p.Shards, Families: p.Families, Counters: map[string]int{}}
 	L.Config = fmt.Sprintf("shards=%d families=%d cycles=%v", p.Shards, len(p.Families), p.Cycles)
 	nodeDir := filepath.Join(dir, "node")
@@ -453,21 +456,63 @@ func (d *driver) flushData(s *planStep) {
 			raceSeq := d.L.Entries[ids[0]].Seq
 			d.mu.Unlock()
 			prev := ps.fam.afterWriteRows
+			prevOn := ps.fam.onWriteRows
+			// the flush runs in its own goroutine (like the flush checker's worker). The replicator waits for it between
+			// WriteRows and CommitSequence - but not forever: a lindb that makes the flush wait for CommitSequence must
+			// not hang the history.
+			done := make(chan struct{})
+			started := false
+			start := func() {
+				started = true
+				go func() {
+					r := doFlush()
+					r.Racing = true
+					rec = r
+					close(done)
+				}()
+			}
+			blocked := false
+			ps.fam.onWriteRows = func(k partKey, seq int64, rows []*metric.StorageRow) {
+				prevOn(k, seq, rows)
+				if seq == raceSeq && s.RaceDuring {
+					// concurrently with WriteRows: the flush may freeze the memory database while the rows are written
+					start()
+				}
+			}
 			ps.fam.afterWriteRows = func(k partKey, seq int64) {
 				prev(k, seq)
 				if seq == raceSeq {
-					rec = doFlush()
-					rec.Racing = true
+					if !s.RaceDuring {
+						start()
+					}
+					select {
+					case <-done:
+					case <-time.After(3 * time.Second):
+						blocked = true
+					}
 				}
 			}
 			d.stepOnce(ps)
 			ps.fam.afterWriteRows = prev
+			ps.fam.onWriteRows = prevOn
+			if started {
+				<-done
+			}
+			if blocked {
+				d.count("data_flush_waited_for_commitsequence", 1)
+				d.endFlush(rec)
+				return
+			}
 			if rec != nil {
 				d.mu.Lock()
 				d.L.Entries[ids[0]].Raced = true
 				d.mu.Unlock()
 				d.endFlush(rec)
-				d.count("data_flush_started_between_writerows_and_commitsequence", 1)
+				if s.RaceDuring {
+					d.count("data_flush_started_concurrently_with_writerows", 1)
+				} else {
+					d.count("data_flush_started_between_writerows_and_commitsequence", 1)
+				}
 				return
 			}
 		}
